@@ -297,3 +297,28 @@ NOT_APPLICABLE = [
     {"property_id": pid, "reason": "check not built yet in this round (engine under construction); see DESIGN.md section 9 build order"}
     for pid in ["C%02d" % i for i in range(1, 20)] if pid not in PROPS
 ]
+
+# ---- fourth session: what was added to each check (appended to the technique text) ----
+_S4 = {
+    "C01": "scheduling points in front of sync/atomic operations; the leader-epoch history is judged on the live log after every operation; one live reader is cancelled while the others stay parked; the quiesce judges readers that wait (runnable laggards get 30 rounds)",
+    "C02": "scheduling points in front of sync/atomic operations; views skip stalled servers, so publishes and elections happen during a leader's stall",
+    "C03": "the appender cuts the uncommitted tail (segments replaced under parked and reading committed readers); reader creation racing a truncation",
+    "C04": "views skip stalled servers",
+    "C05": "crash points stratified by boundary name; the recovery itself is killed at its k-th file-system effect (and the attempt after that at its first); os.WriteFile is truncate-then-write with a crash point in between; point reads through the index and a committed read after every exact check; time skips in programs without cleaning; an appender with new leader epochs runs during a third of the cleans and the epoch history is judged after completed cleans ('every record lies in the epoch the history assigns to its offset')",
+    "C06": "snapshots installed over live state, stale ISR operations and leader changes to out-of-ISR replicas in the committed sequence, Raft's own entries (no-op, configuration, barrier) between commands, stream configs and reserved stream names, settle-and-compare right after half of the restarts, resume-all in the digest (recorded finding, generated in 1 of 25 programs)",
+    "C07": "rounds of 2-4 concurrent ReportLeader calls (at most one election per quorum), raw committed operations with stale generations, 1-3 partitions (the others must not change), recreate/pause/restart between reports, a forwarding non-controller server, seven stale variants, cluster-mode clauses (acting leader is the leader, one acting leader per epoch, epochs across restarts, state equals the committed operations)",
+    "C08": "leader epochs change during programs, also under the concurrent appender; the epoch history is judged after every clean",
+    "C09": "time skips reach the expanded programs (their parameters were dropped before); the oracle accounts for the clock moving inside the clean",
+    "C10": "timestamps at message times -1/0/+1, an empty age-rolled newest segment, log changes under open subscriptions (read-only, clean, several subscriptions woken at once, stepwise high watermark through a stop position), statuses judged without deliveries, undefined position values, all delivered fields compared, reference built from the acknowledgements and checked against the stored log; three recorded findings generated in 1 of 120 programs each",
+    "C11": "eight registers over id x stream x partition, 1 or 3 cursors partitions, background and 10-50 ms deadlines, publishes that fail while the server is up (pause, lost acks), evictions, offsets beyond 32 bits and 0, a final fetch of every key; 15% of programs on three servers with the cursors partition's leadership moved by isolation and stall; cause classification by the committed leader; two recorded findings generated in 1 of 20 cluster programs each",
+    "C12": "assignments as served by GetConsumerGroupAssignments judged on every node (coordinator, epoch+-1, non-member), per-(group, epoch) agreement after every apply, restore and installed snapshot, member timers firing on state-machine coordinators, odd consumer and stream names, a directed single-stream family",
+    "C13": "the partition's subscriber registry is inspected at every marker, rounds of concurrent subscribes judged against a sequential current-epoch register, subscriptions ended by the server (read-only, pause, delete), malformed subscribes with a newer epoch, two groups on one partition, group subscribe on a follower, Resume subscribes on a paused partition, epochs 0 and 2^40",
+    "C14": "every decoder is handed every frame with its type byte as is and set to 0..16 (no panic; invalid header or another type is an error; a valid header decodes to exactly the payload's protobuf value; the replication response layout), round trips with other messages encoded in between, typed internal messages naming the server itself and the real stream, CreateStreamOp shapes, RaftJoinRequest",
+    "C15": "half of the programs send every call through the real gRPC interceptors with identities from verified certificate chains (six no-identity shapes), the tree's own SIGHUP body (derived by the instrumenter), revoke/grant around uses, cursors in the state digest, the configuration-file route, request shapes (partition subsets, ack policies, deadlines, ReadISRReplica), directed sequences on paused streams, callers without policy entries",
+    "C16": "every history is judged (refusals are no-ops, publishes without an answer are settled from the final log, else the non-deterministic register), PublishAsync sessions with correlation ids, pipelined consecutive expected offsets, small segments with retention and time skips, 1-3 partitions, a three-server variant, clean restarts under the publishers",
+    "C17": "2-4 concurrent whole-partition subscriptions, restart with the same master key and pause followed by publishes, handler-level reads of every prefix and of sealed+extra bytes, master keys derived from the seed (16/32 bytes, differing in one byte), arbitrary byte values up to 70 KB, sampled tampering (all header and tag bytes), ALL policy, PublishAsync and bare NATS messages, two partitions or two encrypted streams, 12% of programs with three servers: follower reads, partition-leader failover, rejoin",
+    "C18": "every documented event field compared (partition subsets, ResumeAll, Expired, two-stream joins), every event id in the stream judged, a quarter of the programs on three servers (controller isolated, stalled, crashed; forwarded calls), lost acknowledgements of activity publishes and failing proposals, Raft's own entries in the committed log, two groups with 2-5 s member time-outs",
+    "C19": "request line and headers judged, documented fields pinned to what they document, file-versus-environment precedence and non-boolean environment values, per-incarnation on/off across restarts, instance id seeded / deleted / compared with a second installation, failing reports (transport errors, 5xx), Stop racing Start and silence after Stop; the horizon follows the program's sleeps (periodic reports are reached)",
+}
+for _k, _v in _S4.items():
+    PROPS[_k]["technique"] += "; fourth session: " + _v
